@@ -30,9 +30,11 @@ class C17(Check):
         "U4": "the stoichiometry transform is exhaustive: number -> number, symbol -> name, anything else -> computed coefficient",
         "U6": "no memoisation of imported models keyed by the path alone (or by other non-injective keys): a document rewritten at the "
               "same path must be imported anew",
+        "U8": "nothing of the document is dropped on the way: each variable, parameter, derived quantity (assignment rule) and reaction of the transformed "
+              "document is stored into the symbolic model under its own key on every path of the loop that walks it",
         "U5": "the generated source is written before it is imported, and the model is built from exactly that module",
     }
-    floors = {"U7": 5, "U1": 2, "U2": 4, "U3": 2, "U4": 1, "U5": 2, "U6": 1}
+    floors = {"U7": 5, "U1": 2, "U2": 4, "U3": 2, "U4": 1, "U5": 2, "U6": 1, "U8": 4}
     decided = [
         "two documents read in one session (same stem, different directory or content) get different generated modules",
         "generated functions are called with the arguments they were defined with",
@@ -42,9 +44,45 @@ class C17(Check):
                  "initial assignments on targets other than parameters/species (reported as INFO: no witness document constructed)"]
     assumptions = ["a SHA-256 digest of path + content is injective in practice"]
 
+    def u8(self, mod) -> None:
+        from ..interp import Sym, SymInterp
+
+        class I1(SymInterp):
+            loop_unroll = 1
+
+        cg = mod.func("_codegen")
+        params = [a.arg for a in cg.args.args]
+        doc = params[1] if len(params) > 1 else "model"
+        paths = [st for st, _ in I1().run_function(cg, Sym()).returns]
+        if not paths:
+            raise AnalysisError("_codegen: no returning path")
+        for kind in ("variables", "parameters", "derived", "reactions"):
+            src = f"{doc}.{kind}"
+            key = f"KEY(0, {src})"
+            iterated = stored = 0
+            skipped = None
+            for st in paths:
+                texts = [x for e in st.events for x in e[1:] if isinstance(x, str)] + [c for c, _ in st.conds]
+                if not any(key in t or f"VALUE(0, {src})" in t for t in texts):
+                    continue
+                iterated += 1
+                if any(e[0] == "store" and e[1].endswith(f".{kind}[{key}]") or (e[0] == "store" and f"{kind}[{key}]" in e[1]) for e in st.events):
+                    stored += 1
+                else:
+                    skipped = next((c for c, _ in st.conds if key in c), "a condition")
+            loop = next((l for l in ast.walk(cg) if isinstance(l, ast.For) and norm(l.iter).startswith(src)), cg)
+            if iterated == 0:
+                self.violated("U8", MOD, "_codegen", f"keeps-every {kind}", cg, f"the {kind} of the transformed document are never walked: they are missing from the imported model")
+            elif stored == iterated:
+                self.holds("U8", MOD, "_codegen", f"keeps-every {kind}", loop, f"every iteration stores sym.{kind}[key]")
+            else:
+                self.violated("U8", MOD, "_codegen", f"keeps-every {kind}", loop, f"an entry of {src} is skipped when `{skipped[:70]}`: that quantity of the document is missing from the imported model",
+                              witness="a document with an assignment rule `adenylate_conc := ATP + ADP` that nothing else refers to: the imported model has no such quantity")
+
     def run(self) -> None:
         mod = self.prog.module(MOD)
         rd = mod.func("read")
+        self.u8(mod)
         self.borrow("C11", ("K1",), "U7")
         # ---- U1: what does the module name depend on?
         di = DepInterp()
